@@ -293,6 +293,59 @@ def ectGet (m : List (Nat × Int)) (n : Nat) : Option Int := (m.find? (·.1 == n
 def ectSet (m : List (Nat × Int)) (n : Nat) (v : Int) : List (Nat × Int) :=
   if m.any (·.1 == n) then m.map (fun p => if p.1 == n then (n, v) else p) else m ++ [(n, v)]
 
+/-- The decision of one iteration of the selection loop of
+`get_schedulable_tasks`, by task state (the `if / elif` chain of the source:
+COMPLETED / RUNNING only raise `any_released`; RELEASED within the horizon,
+PREEMPTED and EVICTED are offered; a VIRTUAL task with an estimated completion
+time is offered if the whole graph is being released or its estimate is within
+the horizon; a SCHEDULED task likewise, under retraction only). `e?` is the
+task's entry in `estimated_completion_time`. -/
+def offerDecision (t : TaskS) (e? : Option Int) (time lookahead : Int) (retract rtg : Bool)
+    (anyReleased : Bool) : Except SErr (Bool × Bool) :=
+  match t.state with
+  | .completed | .running => .ok (false, true)
+  | .released => if t.release ≤ time + lookahead then .ok (true, true) else .ok (false, anyReleased)
+  | .preempted | .evicted => .ok (true, true)
+  | .virtual =>
+    match e? with
+    | none => .ok (false, anyReleased)
+    | some e =>
+      -- `task.remaining_time` is only evaluated when the first disjunct is false
+      if anyReleased && rtg then .ok (true, true)
+      else
+        match t.remainingTime with
+        | .error err => .error err
+        | .ok r => if e ≤ time + lookahead + r then .ok (true, true) else .ok (false, anyReleased)
+  | .scheduled =>
+    if retract then
+      match e? with
+      | none => .ok (false, anyReleased)
+      | some e =>
+        if anyReleased && rtg then .ok (true, true)
+        else
+          match TaskS.slowest? t.strategies with
+          | none => .error .attributeError
+          | some s => if e ≤ time + lookahead + s.runtime then .ok (true, true) else .ok (false, anyReleased)
+    else .ok (false, anyReleased)
+  | .cancelled => .ok (false, anyReleased)
+
+/-- One iteration of the selection loop: is task `n` offered, and the new `any_released`. -/
+def offerStep (g : GraphS) (ect : List (Nat × Int)) (time lookahead : Int) (retract rtg : Bool)
+    (n : Nat) (anyReleased : Bool) : Except SErr (Bool × Bool) :=
+  match g.task? n with
+  | none => .error .keyError
+  | some t => offerDecision t (ectGet ect n) time lookahead retract rtg anyReleased
+
+/-- The selection loop over the topological order. -/
+def selectLoop (g : GraphS) (ect : List (Nat × Int)) (time lookahead : Int) (retract rtg : Bool) :
+    List Nat → Bool → List Nat → Except SErr (List Nat)
+  | [], _, out => .ok out
+  | n :: rest, anyReleased, out =>
+    match offerStep g ect time lookahead retract rtg n anyReleased with
+    | .error e => .error e
+    | .ok (offered, any') =>
+      selectLoop g ect time lookahead retract rtg rest any' (if offered then out ++ [n] else out)
+
 /-- `get_schedulable_tasks(...)` for one task graph. `placed` is what
 `worker_pools.get_placed_tasks()` contributes under preemption (already as
 identities of this or other graphs; returned through `extra`). -/
@@ -345,34 +398,9 @@ def getSchedulable (g : GraphS) (time lookahead : Int) (retract : Bool) (policy 
       | none =>
         ect := ectSet ect c cct; queue := queue ++ [c]
   -- choose
-  let mut out : List Nat := []
-  let mut anyReleased := false
-  for n in g.topo do
-    let some t := g.task? n | throw .keyError
-    if t.state == .completed || t.state == .running then
-      anyReleased := true
-    else if t.state == .released && t.release ≤ time + lookahead then
-      out := out ++ [n]; anyReleased := true
-    else if t.state == .preempted || t.state == .evicted then
-      out := out ++ [n]; anyReleased := true
-    else if t.state == .virtual && (ectGet ect n).isSome then
-      let e := (ectGet ect n).getD 0
-      -- `task.remaining_time` is only evaluated when the first disjunct is false
-      if anyReleased && releaseTaskGraphs then
-        out := out ++ [n]; anyReleased := true
-      else
-        let r ← resolveConditional.liftExcept t.remainingTime
-        if e ≤ time + lookahead + r then
-          out := out ++ [n]; anyReleased := true
-    else if retract && t.state == .scheduled && (ectGet ect n).isSome then
-      let e := (ectGet ect n).getD 0
-      if anyReleased && releaseTaskGraphs then
-        out := out ++ [n]; anyReleased := true
-      else
-        let some s := TaskS.slowest? t.strategies | throw .attributeError
-        if e ≤ time + lookahead + s.runtime then
-          out := out ++ [n]; anyReleased := true
-  return out
+  match selectLoop g ect time lookahead retract releaseTaskGraphs g.topo false [] with
+  | .ok out => return out
+  | .error e => throw e
 
 /-- `Task.is_ready_to_run(task_graph)`. -/
 def isReadyToRun (g : GraphS) (n : Nat) : Bool :=
